@@ -328,6 +328,9 @@ def check_c17(args):
     if os.environ.get("VERIF_RECORD_SUBQ"):
         # maintenance aid (never used by a registered check): dump the failing pairs of the subquery family
         json.dump({"failing": sorted(stats.get("subq_failures", ()))}, open(os.environ["VERIF_RECORD_SUBQ"], "w"), indent=0)
+    # ---- the catalog life cycle (Catalog.tla: every reachable catalog x every statement)
+    import catalogcheck
+    cat_stats = catalogcheck.catalog_part(seed, tier, v)
     rc = v.finish()
     write_evidence("C17", tier, seed, "translation_validation", {
         "programs": stats["plans"], "disagreements_checked": len(v.violations) + sum(n for k, n in stats["kinds"].items() if k.startswith("known")),
@@ -338,6 +341,11 @@ def check_c17(args):
                 "configurations (memory-like, disk-like, two mocked statistics); TLC evaluates WellFormed of PlanWF.tla "
                 "on each optimized plan; every statement is also executed on both engines under a 60 s watchdog",
         "optimized_plans_checked_by_tlc": len(plan_recs), "corpus_files": len(corpus),
+        "catalog_life_cycle": dict(cat_stats, rule="Catalog.tla (tables and views over 3 names; CREATE TABLE, CREATE VIEW "
+                                   "over 1-2 objects, DROP [IF EXISTS] of any set, SELECT / INSERT / DELETE) checked by TLC "
+                                   "(NoDangling, Acyclic; the deviation DanglingDrop is rejected); one behaviour per "
+                                   "transition replayed on the real database: accepted / refused as specified, every name "
+                                   "usable afterwards exactly as the specified catalog says, no panic"),
         "subquery_family": {"statements": len(subq), "failing_pairs_seen": len(stats.get("subq_failures", ())),
                             "failing_pairs_listed": len(known_subq)},
         "by_kind": stats["kinds"], "known_findings_seen": sorted(v.seen_known)},
